@@ -5,6 +5,8 @@ CONSTANTS
   InitialPacked <- MCPacked
   WriterAdds <- MCAdds
   ReaderWants <- MCWants
+  MaxRetries = 3
+  SeekKey = "none"
   ReaderPinned = FALSE
   PerPack = TRUE
   AllowCrash = TRUE
